@@ -11,7 +11,7 @@
 //! panic); `ev=` drains `state.events`. Everything is rendered from the ACTUAL values returned by /
 //! stored in the real state, never by echoing the op text.
 //!
-//! Case ids: `corpus-*`, `fixed-*`, `ex-<v>-<max>-<i>` / `ex2-v5-<max>-<i>` (exhaustive, ungated),
+//! Case ids: `corpus-*`, `fixed-*`, `ex-<v>-<max>-<i>` / `ex2-v5-<max>-<i>` / `ex3-v5-<max>-<i>` (exhaustive, ungated),
 //! `r-<kind>-<shard>-<n>` with kind in window|resume|order|hostile (respect the event-loop gate:
 //! a fresh `out` request other than `out ping` only when inf < limit, no collision and nothing
 //! pending) and `ungated` (does not).
@@ -1714,6 +1714,8 @@ fn corpus(w: &mut dyn Write, st: &mut Stats) {
     scripted(w, st, "corpus-parked-replay".into(), "corpus", true, 2, &["out pub 1 1", "out pub 1 2", "in puback 2 0", "out pub 1 3", "clean", "out repub 1 1 1", "out repub 1 0 3", "in puback 1 0", "in puback 2 0"]);
     // nested failure: the retransmission already replayed goes in front of the one still waiting
     scripted(w, st, "corpus-nested-fail".into(), "corpus", false, 3, &["out pub 1 1", "out pub 1 2", "clean", "out repub 1 1 1", "clean", "out repub 1 1 1", "out repub 1 2 2"]);
+    // PUBREC(0x10 No matching subscribers) accepts the publish like Success: PUBREL, release held until PUBCOMP, across a failure
+    scripted(w, st, "corpus-pubrec-nms".into(), "corpus", true, 2, &["out pub 2 1", "in pubrec 1 16", "clean", "out pubrel 1", "in pubcomp 1 0", "out pub 2 2", "in pubrec 2 16", "in pubcomp 2 0"]);
     scripted(w, st, "corpus-alias".into(), "corpus", true, 3, &["in publish 1 5 9 e 7", "in publish 0 0 10 t 7", "in publish 0 0 11 e 7"]);
     scripted(w, st, "corpus-f4-v5".into(), "corpus", true, 3, &f4);
     scripted(w, st, "corpus-f11-v5".into(), "corpus", true, 3, &f11);
@@ -1746,6 +1748,20 @@ const ALPHA_B: [&str; 9] = [
     "in pubcomp 1 0",
     "in pubrec 1 0",
     "in connack 0 0 1 -",
+    "clean",
+];
+
+/// v5 reason codes on a stored QoS 2 publish: PUBREC with both accepting codes (0, 16) and a refusal,
+/// PUBCOMP with and without a failure reason, PUBACK(16)
+const ALPHA_C: [&str; 9] = [
+    "out pub 2 T",
+    "in pubrec 1 16",
+    "in pubrec 1 0",
+    "in pubrec 1 128",
+    "in pubcomp 1 0",
+    "in pubcomp 1 146",
+    "in puback 1 16",
+    "out pub 1 T",
     "clean",
 ];
 
@@ -1817,7 +1833,8 @@ pub fn run(o: &Opts) {
          out sub 1) for v4 and v5 with L={l1} for max=1, L={l2} for max=2, L={l3} for max=3 (every prefix is compared line \
          by line; quick: only max=2, where a collision and its resolution fit, gets L=5 so that the run stays near 10 s / 160 MB; thorough is sharded); block \
          B = v5, max=2, L={lb} over (out pub 1, in puback 1 0/151, in pubrec 1 128/0, in pubcomp 1 146/0, in connack rm=1, \
-         clean); plus random state-aware cases of kinds window/resume/ungated/hostile/order (5..200 ops, biased short; max from \
+         clean); block C = v5, max=2, L=max(3, L_B - 1) over (out pub 2, out pub 1, in pubrec 1 16/0/128, in pubcomp 1 0/146, \
+         in puback 1 16, clean): both accepting PUBREC reason codes and a refusal on a stored QoS 2 publish; plus random state-aware cases of kinds window/resume/ungated/hostile/order (5..200 ops, biased short; max from \
          1,2,3,4,5,10,100,65535 with weights 2,4,4,3,3,2,1,1, except that only one in ten of the max=65535 draws is kept, at \
          <= 12 ops, the rest falling back to 100, because every line clones the 65536-slot table; 40 % of the window/resume \
          cases are 'polite', i.e. free of duplicate/unsolicited/above-limit acks). \
@@ -1833,6 +1850,7 @@ pub fn run(o: &Opts) {
         exhaustive(w, &mut st, o, "ex", &ALPHA_A, v5, 3, l3);
     }
     exhaustive(w, &mut st, o, "ex2", &ALPHA_B, true, 2, lb);
+    exhaustive(w, &mut st, o, "ex3", &ALPHA_C, true, 2, lb.saturating_sub(1).max(3));
 
     let foc = extra(o, "--focus").unwrap_or_else(|| "C07".to_string());
     st.tag(&format!("focus:{foc}"));
